@@ -149,11 +149,14 @@ def build(seed, i, tier):
     fam = G.pick(rs, fams)
     wc = rs.random() < 0.5
     threading = rs.random() < 0.5
-    if not mode.startswith("unserialisable") and not (wc or threading):
+    plain_ok = mode == "unbuffered" and rs.random() < 0.25     # plain write mode: only "an operation that raises leaves the file alone" is checked
+    if not mode.startswith("unserialisable") and not (wc or threading) and not plain_ok:
         wc = True
     cfg = {"prop": ID, "family": fam, "wc": wc, "threading": threading, "threading_ctor": threading if rs.random() < 0.7 else (not threading), "oracles": [], "uuid_seed": rs.getrandbits(32), "mode": mode,
            "strategy": ns.families[fam]["strategy"], "kinds": [G.pick(rs, ["dict", "list"]) for _ in range(4)],
-           "nres": 1 if mode in ("unbuffered", "unserialisable-flush") else rs.choice([1, 2, 3, 4]), "big": rs.random() < 0.25}
+           "nres": 1 if mode in ("unbuffered", "unserialisable-flush") else rs.choice([1, 2, 3, 4]), "big": rs.random() < 0.25,
+           # a share of runs uses file names so long that the temp-file name exceeds NAME_MAX (the save must then fail cleanly)
+           "name_pad": 225 if rs.random() < 0.08 else 0, "surrogates": rs.random() < 0.3}
     return cfg
 
 
@@ -164,6 +167,7 @@ def scenario(cfg, seed, i, kill_at=None, want_states=False):
     # objects may be constructed while threading support is in the OTHER state than at save time (the write mode in
     # effect at the save decides)
     w = World(dict(cfg, threading=cfg.get("threading_ctor", cfg["threading"])))
+    w.cfg = dict(w.cfg)
     try:
         fresh = w.fresh
         # ---- setup: files with old content, one object each, a few ordinary ops ----
@@ -246,6 +250,18 @@ def scenario(cfg, seed, i, kill_at=None, want_states=False):
                 if st["name"] != "popitem" and not isinstance(mres, M.Raised):
                     break
             args = M.dec(st["args"], None)
+            if cfg.get("surrogates") and mode == "unbuffered" and st["name"] in ("setitem", "append", "insert", "setdefault") and rg.random() < 0.6:
+                # a string with a lone surrogate (what os.fsdecode returns for a non-UTF-8 file name): valid content for the
+                # library's encoder; a save that fails on it must not have touched the file
+                sv = "\udc80surrogate\udcff"
+                if st["name"] in ("setitem", "insert", "setdefault") and len(args) > 1:
+                    args[-1] = sv
+                    st["args"][-1] = sv
+                elif st["name"] == "append":
+                    args[0] = sv
+                    st["args"][0] = sv
+                trial = deep(r.model)
+                M.model_apply(get_path(trial, h.path), st["name"], M.dec(st["args"], None))
             if mode == "unserialisable":
                 kind_bad = rg.choice(["bigint", "bigint", "TypeError", "ValueError", "RecursionError", "MemoryError"])
                 bad = kind_bad
@@ -286,6 +302,18 @@ def scenario(cfg, seed, i, kill_at=None, want_states=False):
                                        f"files hold {[None if b is None else b[:60] for b in st]!r}, before: {[None if b is None else b[:60] for b in old]!r}"}
                         break
             return out
+        if isinstance(res, M.Raised) and not isinstance(res.exc, (KeyError, IndexError)) or (isinstance(res, M.Raised) and not atomic):
+            # an operation that RAISED (encoder failure, OSError from an over-long temp name, ...) must not have damaged
+            # any file at any instant, in any write mode
+            for st_, (ev, lab) in sorted(states.items(), key=lambda kv: kv[1][0]):
+                for rid, b in enumerate(st_):
+                    got = parse(b)
+                    olds = old_parsed[rid]
+                    same_old = (got is ABSENT and olds is ABSENT) or (got is not ABSENT and olds is not ABSENT and not (isinstance(got, tuple) and got and got[0] == "<unparsable>") and same(got, olds))
+                    if not same_old and not (atomic and not (isinstance(got, tuple) and got and got[0] == "<unparsable>") and got is not ABSENT and same(got, expect_new[rid])):
+                        out["viol"] = {"kind": "file_damaged_by_failed_save", "msg": f"{label} (wc={cfg['wc']}, threading={cfg['threading']}) raised {res!r}; at event {ev} ({lab}) file {rid} holds "
+                                       f"{None if b is None else b[:80]!r}, before the call: {jsonable(olds)!r}"}
+                        return out
         if not atomic:
             return out
         fresh_checked = 0
